@@ -2,6 +2,7 @@ import PMV.Generated.Names
 import PMV.Proofs.Rename
 import PMV.Proofs.Transforms
 import PMV.Properties.C07
+import PMV.Proofs.RemovePass
 /-
   C17 — Turning a size optimisation on never makes the output longer (on the pinned corpus).
   The property quantifies over a finite, pinned corpus: the check enumerates it completely (thorough
@@ -63,6 +64,16 @@ theorem filter_not_more_statements (q : Stmt → Bool) (m : Bool) (b : List Stmt
     cases b with
     | nil => exact absurd rfl hb
     | cons x xs => simp
+
+/-- T17.4b: the same for remove_pass with its docstring guard (the placeholder takes the place of a removed `pass`). -/
+theorem remove_pass_not_more_statements (m : Bool) (b : List Stmt) (hb : b ≠ []) :
+    (Transforms.removePass.suiteF m b).length ≤ b.length := by
+  show (Transforms.filterSuite Transforms.isPass m (Transforms.passGuard b)).length ≤ b.length
+  rcases Transforms.passGuard_cases b with h | ⟨rest, hb', h⟩
+  · rw [h]; exact filter_not_more_statements _ m b hb
+  · rw [h]
+    have := filter_not_more_statements Transforms.isPass m (Transforms.zeroStmt :: rest) (by simp)
+    rw [hb']; simpa using this
 
 example : shouldRename ⟨0, .name, some "long_name", 0, true, none, 0, false, [], [⟨.name, []⟩, ⟨.name, []⟩]⟩ "A" = true := by decide
 example : shouldRename ⟨0, .hoisted, none, 3, true, none, 0, false, [], [⟨.literal, []⟩, ⟨.literal, []⟩]⟩ "A" = false := by decide
